@@ -17,11 +17,49 @@ ASSUMPTIONS = {
 
 UNITS = {
     'unitA': {'spec': 'unitA.vrs'},
+    'unitB': {'spec': 'unitB.vrs'},
+    'unitD': {'spec': 'unitD.vrs', 'threads': 8},
     'unitF': {'spec': 'unitF.vrs', 'expanded': True, 'threads': 8},
     'unitC': {'spec': 'unitC.vrs', 'expanded': True, 'threads': 16, 'timeout': 2400},
 }
 
 PROPS = {
+    'C04': {
+        'units': ['unitD'],
+        'assumptions': ['A-deps', 'A-arena', 'A-std', 'A-iter', 'A-float', 'A-limits', 'A-extract', 'A-verus'],
+        'rules': 'R1 R2 R4 (one function per loop body of parse_* / emit; filter predicates lifted) R6 R9 (macro_rules with contracts); panic mode: absent',
+        'claimed': [
+            'memories, tables, globals: add_local / add_import store exactly the attributes given (whole record), parse body creates one record per section item with the item\'s attributes and pushes its id once; emit body rebuilds the encoder type from the record field by field and assigns the next index',
+            'imports: one import record + one entity per entry, names kept, entity and import record point at each other, kind-specific type kept (limits, shared, 64-bit, page size, element type, mutability); emit arm per kind rebuilds the entity type from the record (F3 failed here before the fix)',
+            'exports: record keeps name and denotes the entity the input index denotes; emit writes name, kind and the emit-time index',
+            'constant expressions (global initialisers): eval / to_wasmencoder_type against the denotation of each operator; lemma: same constant bit for bit / same entity through both maps',
+            'imported-vs-local partition: the emit filters keep exactly the records without import back-pointer (predicates lifted and verified)',
+        ],
+        'unclaimed': [
+            'data and element segments, start function, function signatures / type section: not under contract yet; bounded stand-in (entities battery)',
+            'the iteration protocol of section readers and arena iterators (A-iter)',
+        ],
+        'standins': [
+            {'fn': 'parse_data / parse_elements / ModuleData::emit / ModuleElements::emit / start / types (whole module structure)', 'argv': ['entities'],
+             'bound': '18 hand-written modules covering imported/local x 32/64-bit x shared x every element/data segment encoding; canonical structure (indices replaced by identity labels) compared before/after the round trip',
+             'why': 'units for data/element segments not built yet'},
+        ],
+    },
+    'C19': {
+        'units': ['unitB', 'unitD'],
+        'obligations': ['B.', 'D.mem.parse', 'D.table.parse', 'D.global.parse', 'D.import.parse', 'D.export.parse', 'D.mem.emit', 'D.table.emit', 'D.global.emit', 'D.import.emit', 'D.export.emit'],
+        'assumptions': ['A-deps', 'A-std', 'A-iter', 'A-limits', 'A-extract', 'A-verus'],
+        'rules': 'R1 R2 R4 R6 R9; panic mode: absent',
+        'claimed': [
+            'parse-time map: push_K appends exactly the id and returns its position, touching no other index space; get_K(i) is Ok(ids[i]) iff i in range (macro-generated methods verified through the macro itself, rule R9)',
+            'emit-time map: push_K assigns the next free index (= number of ids pushed so far) and touches no other space; set_data_index',
+            'push sites: every parse loop body pushes the id of the record it just created, once, into its own space (imports: the space of the import kind); every emit loop body pushes the entity whose entry it appends, in the same iteration',
+        ],
+        'unclaimed': [
+            'get_K_index bodies (Option::cloned().unwrap_or_else(|| panic!)): assumed contract',
+            'push_local / locals index space; functions, types, elements and data push sites; hand-off of the maps to custom sections (unit I)',
+        ],
+    },
     'C16': {
         'units': ['unitF'],
         'assumptions': ['A-arena', 'A-ext', 'A-extract', 'A-verus'],
@@ -44,6 +82,9 @@ PROPS = {
             {'fn': 'dfs_in_order event trace (order, start/end nesting, exactly once)', 'argv': ['visit-cf', '4', '3'],
              'bound': 'all 89021 control-flow programs with <= 4 nodes and nesting <= 3: trace == in-order flattening of the body; mutable traversal visits the same number of instructions',
              'why': 'same'},
+            {'fn': 'dfs_in_order / dfs_pre_order_mut call-stack use', 'argv': ['visit-deep', '100000'],
+             'bound': 'nesting depth 10^5 through block, loop, if-then and if-else arms, both traversals, on a 2 MiB thread stack',
+             'why': 'same (recursion in the drivers would be rejected by Verus if they could be extracted)'},
         ],
     },
     'C03': {
